@@ -2,6 +2,8 @@
 from . import r_storage as S
 from . import r_storage2 as S2
 from . import r_unwind as U
+from . import r_entity as E
+from . import r_spec as SP
 
 COMMON_ASSUMPTIONS = [
     "rustc nightly front end, MIR construction and trait resolution are correct; the mirfacts extractor serialises MIR faithfully",
@@ -25,8 +27,8 @@ def prop(pid, **kw):
 
 prop(
     "C01",
-    rules=["C01-R1", "C01-R3", "C01-R4", "C01-R5", "C08-R5"],
-    mir_rules=[S.rule_entity_resolver, S.rule_remover, S.rule_slot_primitives, S2.rule_grower, S2.rule_populate, S2.rule_ctor],
+    rules=["C01-R1", "C01-R3", "C01-R4", "C01-R5", "C08-R5", "C01-R2"],
+    mir_rules=[S.rule_entity_resolver, S.rule_remover, S.rule_slot_primitives, S2.rule_grower, S2.rule_populate, S2.rule_ctor, SP.rule_funnel],
     floors={
         "C01-R1": lambda c: 8 * n_storages(c),
         "C01-R3": lambda c: n_storages(c) + 2,
@@ -41,8 +43,8 @@ prop(
 
 prop(
     "C02",
-    rules=["C02-R1", "C02-R2", "C02-R4", "X-EXT"],
-    mir_rules=[S.rule_creator, S.rule_remover, S.rule_extent, S2.rule_grower],
+    rules=["C02-R1", "C02-R2", "C02-R4", "X-EXT", "C02-R5"],
+    mir_rules=[S.rule_creator, S.rule_remover, S.rule_extent, S2.rule_grower, SP.rule_iter_loops],
     floors={"C02-R1": lambda c: 3 * n_storages(c), "C02-R2": lambda c: 4 * n_storages(c), "X-EXT": lambda c: 40 * n_storages(c)},
     explanation="Static analysis. Decides: C02-R1 the creator writes the handle and all N components at one index = pre-increment len, component i into column i; "
     "C02-R2 the remover swap_removes all N+1 arrays at the resolved dense index with the pre-decrement len and returns the values moved out of columns 0..N-1 in order; "
@@ -52,8 +54,8 @@ prop(
 
 prop(
     "C03",
-    rules=["C03-R1", "C03-R7", "X-EXT"],
-    mir_rules=[S.rule_entity_resolver, S.rule_direct_resolver, S.rule_extent],
+    rules=["C03-R1", "C03-R7", "X-EXT", "C03-R3", "C03-R4", "C03-R5", "C14-R3"],
+    mir_rules=[S.rule_entity_resolver, S.rule_direct_resolver, S.rule_extent, E.rule_layout, E.rule_id_bits_inert, E.rule_version_opaque, E.rule_conversions],
     floors={"C03-R1": lambda c: 4 * n_storages(c), "C03-R7": lambda c: 2 * n_storages(c)},
     explanation="Static analysis. Decides: C03-R1/R7 every unchecked read whose index derives from a key is dominated by the exact bounds guard against the extent of the array it indexes "
     "and by the generation / free-bit guard before slot contents are used as an index; X-EXT extents match the arrays.",
@@ -62,8 +64,8 @@ prop(
 
 prop(
     "C08",
-    rules=["C08-R2", "C08-R3", "C08-R5", "C01-R3"],
-    mir_rules=[S.rule_version_next, S.rule_creator, S.rule_slot_primitives, S.rule_remover, S2.rule_populate, S2.rule_ctor],
+    rules=["C08-R2", "C08-R3", "C08-R5", "C01-R3", "C08-R4", "C14-R7"],
+    mir_rules=[S.rule_version_next, S.rule_creator, S.rule_slot_primitives, S.rule_remover, S2.rule_populate, S2.rule_ctor, E.rule_layout, E.rule_conversions],
     floors={"C08-R2": 2, "C08-R3": lambda c: 5 * n_storages(c), "C08-R5": 3},
     explanation="Static analysis. Decides: C08-R2 the successor generation is checked_add(1) with a panic and no value on overflow (default) resp. wrapping_add(1) mapped away from zero (wrapping_version); "
     "C08-R3 a created handle carries the popped slot index, that slot's current generation and the storage's own A::ARCHETYPE_ID, and is the value stored and returned; "
@@ -73,8 +75,8 @@ prop(
 
 prop(
     "C09",
-    rules=["C09-R1", "C09-R2", "C09-R3"],
-    mir_rules=[S.rule_direct_resolver, S.rule_remover, S.rule_creator, S2.rule_grower],
+    rules=["C09-R1", "C09-R2", "C09-R3", "C09-R4", "C09-R5", "C09-R6"],
+    mir_rules=[S.rule_direct_resolver, S.rule_remover, S.rule_creator, S2.rule_grower, SP.rule_funnel, SP.rule_mints, E.rule_conversions],
     floors={"C09-R1": lambda c: 5 * n_storages(c), "C09-R2": lambda c: n_storages(c), "C09-R3": lambda c: n_storages(c)},
     explanation="Static analysis. Decides: C09-R1 the direct resolver accepts on exactly one path guarded by {key.version==self.version, dense_index<len}; "
     "C09-R2 every remover stores version<-version.next() unconditionally; C09-R3 creators write only at index old-len and never touch version.",
@@ -83,8 +85,8 @@ prop(
 
 prop(
     "C12",
-    rules=["C12-R1", "C12-R2", "C12-R3", "C12-R4", "X-WMW"],
-    mir_rules=[S.rule_creator, S.rule_remover, S2.rule_push_guards, S2.rule_grower, S2.rule_populate, S2.rule_ctor, S2.rule_accessors, S2.rule_who_may],
+    rules=["C12-R1", "C12-R2", "C12-R3", "C12-R4", "X-WMW", "C12-R5"],
+    mir_rules=[S.rule_creator, S.rule_remover, S2.rule_push_guards, S2.rule_grower, S2.rule_populate, S2.rule_ctor, S2.rule_accessors, S2.rule_who_may, E.rule_layout],
     floors={"C12-R1": lambda c: 4 * n_storages(c), "C12-R4": lambda c: 4 * n_storages(c), "C12-R2": lambda c: 18 * n_storages(c), "C12-R3": lambda c: 4 * n_storages(c), "X-WMW": lambda c: 10 * n_storages(c)},
     explanation="Static analysis. Decides: C12-R1 len changes by exactly +1 in the creator and -1 in the remover, capacity is written by neither; X-WMW len/capacity/free_head/version are written "
     "only by the functions whose role allows it and only through &mut self; C12-R2 push grows iff len>=capacity and panics iff grow()==false, push_within_capacity returns Err(argument) iff len>=capacity and never grows, "
@@ -107,8 +109,8 @@ prop(
 
 prop(
     "C06",
-    rules=["C06-R1", "C06-R2", "X-EXT"],
-    mir_rules=[S2.rule_iters, S.rule_extent],
+    rules=["C06-R1", "C06-R2", "X-EXT", "C06-R3"],
+    mir_rules=[S2.rule_iters, S.rule_extent, SP.rule_iter_loops],
     floors={"C06-R1": lambda c: 6 * n_storages(c), "C06-R2": lambda c: 12 * n_storages(c)},
     explanation="Static analysis. Decides: C06-R1 both raw-pointer iterators start at the column bases with remaining = len, pointer field i over column i; C06-R2 next() yields None iff remaining==0, otherwise the "
     "pre-advance pointers in field order, advances every pointer by exactly one element once and decrements remaining once; X-EXT every slice accessor cuts at len.",
@@ -117,8 +119,8 @@ prop(
 
 prop(
     "C10",
-    rules=["C10-R1", "C10-R2", "C10-R4"],
-    mir_rules=[U.rule_commit_sections, S2.rule_grower, S2.rule_ctor],
+    rules=["C10-R1", "C10-R2", "C10-R4", "C10-R3"],
+    mir_rules=[U.rule_commit_sections, S2.rule_grower, S2.rule_ctor, SP.rule_sealed_callbacks],
     floors={"C10-R1": lambda c: 7 * n_storages(c), "C10-R2": lambda c: 2 * n_storages(c), "C10-R4": lambda c: 2 * n_storages(c)},
     explanation="Static analysis (may-unwind classification of every effect on every path, closed std tables, fail closed on unclassified callees). Decides: C10-R1 no creator, remover, grower or entry point wrapping them "
     "has a may-unwind point between its first and its last state write (nor a panic path after the first write), exemptions only by keyed table entry with reason; C10-R2 the documented capacity panics precede all writes; "
@@ -148,10 +150,44 @@ prop(
 
 prop(
     "C17",
-    rules=["C17-R1", "C17-R2", "C17-R4"],
-    mir_rules=[S.rule_creator, S.rule_remover, S2.rule_who_may],
+    rules=["C17-R1", "C17-R2", "C17-R4", "C17-R3"],
+    mir_rules=[S.rule_creator, S.rule_remover, S2.rule_who_may, SP.rule_funnel],
     floors={"C17-R2": lambda c: 2 * n_storages(c), "C17-R1": lambda c: 3 * n_storages(c)},
     explanation="Static analysis (events configurations; in the others the rules assert that no event code exists). Decides: C17-R1 the logs are pushed only by creator/remover and cleared only by clear_events; "
     "C17-R2 exactly one created-event per creation carrying the returned handle, exactly one destroyed-event per removal carrying entities[dense] read before the move; C17-R4 clear_events clears both logs and nothing else, accessors expose their own log.",
     not_decided="history-level exactness follows from the bijection with len changes; world-level iterators are judged by the specimen rules",
+)
+
+prop(
+    "C05",
+    rules=["C05-R5", "C05-R7"],
+    mir_rules=[SP.rule_find_dispatch, SP.rule_iter_loops],
+    floors={"C05-R5": 60, "C05-R7": 30},
+    explanation="Static analysis of the specimen expansions against an independent matcher (hand-written from the specimen declaration). Decides: C05-R7 for each of 26 query sites over 5 macros, the set of world fields walked / match arms present "
+    "equals the set of archetypes the matcher computes (components, OneOf with exactly one hit, typed entity parameters, cfg-disabled parameters); C05-R5 each find arm fetches from the archetype of its own variant, "
+    "the closure only runs inside .map of that fetch, and the fall-through arm returns None without running a closure.",
+    not_decided="nothing about run-time entity sets; these rules sample query programs -- the universal rules on the binder functions of the macro crate are listed separately",
+)
+
+prop(
+    "C07",
+    rules=["C07-R1", "C07-R2", "C07-R5"],
+    mir_rules=[SP.rule_iter_loops, SP.rule_mints],
+    floors={"C07-R1": 30, "C07-R2": 20, "C07-R5": 4},
+    explanation="Static analysis of the ecs_iter_destroy! expansions in the specimen. Decides: C07-R1 each matched archetype is walked by a descending loop over Rev(Range(0, len)) with len read once before the loop, slices re-fetched in every iteration "
+    "before the single closure call; C07-R2 the four EcsStepDestroy values map to {next index, leave the query, one destroy then next index, one destroy then leave}, the entity destroyed is entities[idx] of the visit just made, "
+    "From<EcsStep>/From<()> map as documented; C07-R5 direct handles handed to the closure carry the archetype generation current at the mint (not one read before an earlier iteration's destroy).",
+    not_decided="the statement over all 4^n decision functions follows from R1-R2 and C02-R3 by the standard descending-walk argument; it is not enumerated",
+)
+
+prop(
+    "C14",
+    rules=["C14-R1", "C14-R2", "C14-R3", "C14-R4", "C14-R5", "C14-R6", "C14-R7"],
+    mir_rules=[E.rule_layout, E.rule_conversions, E.rule_transmutes, E.rule_eq_hash, SP.rule_tables],
+    floors={"C14-R1": 10, "C14-R2": 14, "C14-R3": 4, "C14-R4": 5, "C14-R5": 40, "C14-R6": 8, "C14-R7": 4},
+    explanation="Static analysis; these functions are straight-line bit operations and table lookups, total on their 2^32 domain by construction, so agreement of their constants decides them for all inputs. Decides: C14-R1 pack "
+    "(index<<8 | zext(id)), archetype_id() (key as u8) and slot/dense_index (key>>8) agree with ARCHETYPE_ID_BITS == 8 and nobody else reads `key`; C14-R2 typed<->dynamic conversions succeed iff id(key)==A::ARCHETYPE_ID and carry the value unchanged; "
+    "C14-R3 raw()/from_raw() are mutually inverse and from_raw rejects only generation 0; C14-R4 the 4 transmutes are &W->&I with W repr(transparent) over its only non-ZST field I, same lifetime and mutability; "
+    "C14-R5 the six generated TryFrom dispatch tables and SelectArchetype::archetype_id map id k to the archetype whose ARCHETYPE_ID is k, each archetype once, otherwise Err; C14-R6 Hash reads a subset of what Eq compares and Eq compares every field; C14-R7 typed archetype_id()/new use A::ARCHETYPE_ID.",
+    not_decided="behaviour of HashSet/HashMap (std)",
 )
